@@ -383,7 +383,23 @@ def pua(s):
     return any(PUA_LO <= ord(ch) <= PUA_HI for ch in (s or ""))
 
 
+RESERVED_PREFIX = re.compile(r"ns\d+$")
+
+
+def reserved_prefix(c):
+    """some root binds a prefix of the form ns<k> (lxml generates such prefixes itself)"""
+    for s in (c["left"], c["right"]):
+        try:
+            if any(k is not None and RESERVED_PREFIX.match(k) for k in etree.fromstring(s).nsmap):
+                return True
+        except Exception:  # noqa
+            pass
+    return False
+
+
 def key_C08(c):
+    if reserved_prefix(c):
+        return "reserved-ns-prefix-on-root"
     if c["cfg"]["replace"] and c["cfg"]["tt"]:
         return "use_replace-with-text_tags"
     return None
@@ -490,6 +506,27 @@ PRE2 = PRE2[:PRE2.index("Definition check (c : case)")] + """Definition check (c
 """
 
 
+PRE3 = PRE2.replace("XV.XmlFmtProofs4 XV.XmlFmtProofs5.", "XV.XmlFmtProofs4 XV.XmlFmtProofs5 XV.XmlFmtProofsF.")
+PRE3 = PRE3[:PRE3.index("Definition check (c : case)")] + """Definition check (c : case) : bool :=
+  let '(cf, late, alnum, space, L, R, rootns, pL, pR, gs, e) := c in
+  let o := Orc {| DMP.isalnum := fun c => existsb (N.eqb c) alnum; DMP.isspace := fun c => existsb (N.eqb c) space |}
+               (fun _ => late) in
+  let '(s, L', R') := prepare cf L R in
+  run_ok_attrb cf o rootns (FS L' s [(Some DIFF_PREFIX, DIFF_NS)]) gs.
+"""
+
+
+def attrs_simple(c):
+    """the scope of C10_reject_attrs_partial: no namespaced attribute names, no ; : { } in names, no ; { } in values"""
+    for s in (c["left"], c["right"]):
+        for e in etree.fromstring(s).iter():
+            if isinstance(e.tag, str):
+                for k, v in e.attrib.items():
+                    if not k or any(ch in k for ch in ";:{}") or any(ch in v for ch in ";{}"):
+                        return False
+    return True
+
+
 def cs(s):
     return "[" + ";".join(str(ord(ch)) for ch in s) + "]"
 
@@ -532,7 +569,7 @@ def coq_case(c):
 
 
 def modelable(c):
-    if not c.get("supported") or "script" not in c:
+    if not c.get("supported") or "script" not in c or c["kind"] == "reserved":
         return False
     if "exc" in c and c["exc"] not in ERRS:
         return False
@@ -625,6 +662,24 @@ KNOWN_STREAM = [
 ]
 
 
+RESERVED_STREAM = [
+    ('<r xmlns:ns0="urn:n" xmlns:diff="%s"><ns0:a><diff:b/>t</ns0:a><diff:b diff:k="1"/></r>' % "urn:example:revisions",
+     '<r xmlns:ns0="urn:n" xmlns:diff="%s"><diff:b diff:k="2"><ns0:a>t</ns0:a></diff:b><ns0:c/></r>' % "urn:example:revisions"),
+    ('<r xmlns:ns0="urn:n" xmlns:diff="urn:o"><ns0:a><diff:b/></ns0:a></r>',
+     '<r xmlns:ns0="urn:n" xmlns:diff="urn:o"><diff:b><ns0:a>x</ns0:a></diff:b></r>'),
+    ('<r xmlns:ns1="urn:n" xmlns:ns0="urn:m" xmlns:diff="urn:o"><ns1:a><ns0:b/>t</ns1:a><ns0:b/></r>',
+     '<r xmlns:ns1="urn:n" xmlns:ns0="urn:m" xmlns:diff="urn:o"><ns0:b><ns1:a>t</ns1:a></ns0:b></r>'),
+    ('<r xmlns:ns0="urn:n"><ns0:a><b/>t</ns0:a><b k="1"/></r>', '<r xmlns:ns0="urn:n"><b k="2"><ns0:a>t</ns0:a></b><ns0:c/></r>'),
+]
+
+
+def gen_reserved():
+    """documents whose root binds lxml's own prefix ns<k>: open finding 'reserved-ns-prefix-on-root'; outside the model
+    (which assumes that the only namespace declarations are the root's and the formatter's)"""
+    return [{"kind": "reserved", "left": l, "right": r, "cfg": {"normalize": WS_NONE, "replace": False, "tt": [], "fmt": []},
+             "opts": {}, "late": False} for l, r in RESERVED_STREAM]
+
+
 def gen_known():
     out = []
     for k in KNOWN_STREAM:
@@ -638,22 +693,22 @@ OWN = "urn:example:revisions"
 
 
 def gen_prefixes(rng, n):
-    """documents that bind the formatter's own prefix `diff` (and lxml's ns0) to namespaces of their own, on the root,
-    and use them for elements and attributes"""
+    """documents that bind the formatter's own prefix `diff` (and a second prefix) to namespaces of their own, on the
+    root, and use them for elements and attributes"""
     out = []
     fixed = [
         ('<root xmlns:diff="%s"><diff:item>hello</diff:item><x>y</x></root>' % OWN,
          '<root xmlns:diff="%s"><diff:item>hello world</diff:item><x>z</x></root>' % OWN),
         ('<root xmlns:diff="%s"><diff:sec><diff:p a="1">one two three</diff:p><diff:p>four five six</diff:p></diff:sec></root>' % OWN,
          '<root xmlns:diff="%s"><diff:sec><diff:p>four five six</diff:p><diff:p a="2">one two three</diff:p><diff:q>seven</diff:q></diff:sec></root>' % OWN),
-        ('<r xmlns:ns0="urn:n" xmlns:diff="%s"><ns0:a><diff:b/>t</ns0:a><diff:b diff:k="1"/></r>' % OWN,
-         '<r xmlns:ns0="urn:n" xmlns:diff="%s"><diff:b diff:k="2"><ns0:a>t</ns0:a></diff:b><ns0:c/></r>' % OWN),
+        ('<r xmlns:d2="urn:n" xmlns:diff="%s"><d2:a><diff:b/>t</d2:a><diff:b diff:k="1"/></r>' % OWN,
+         '<r xmlns:d2="urn:n" xmlns:diff="%s"><diff:b diff:k="2"><d2:a>t</d2:a></diff:b><d2:c/></r>' % OWN),
     ]
     for l, r in fixed:
         for norm in (WS_NONE, WS_BOTH):
             out.append({"kind": "prefixes", "left": l, "right": r,
                         "cfg": {"normalize": norm, "replace": False, "tt": [], "fmt": []}, "opts": {}, "late": False})
-    nsmap = {"diff": OWN, "ns0": "urn:n"}
+    nsmap = {"diff": OWN, "d2": "urn:n"}     # (a prefix of the form ns<k> is lxml's own: candidate finding, not generated)
     tags = ["a", "{%s}item" % OWN, "{%s}p" % OWN, "{urn:n}b"]
     for _ in range(n):
         def mk(k):
@@ -725,6 +780,7 @@ def gen_inputs(run, rng):
     cases = gen_exhaustive(3 if quick else 4)
     nexh = len(cases)
     cases += gen_known()
+    cases += gen_reserved()
     cases += gen_texts(rng, quick)
     cases += gen_prefixes(rng, 30 if quick else 300)
     cases += gen_lines(rng, 5 if quick else 60)
@@ -809,7 +865,22 @@ def main(run, focus):
                     except OSError:
                         pass
         bad2 = [idx2[i] for i in b2]
-    run.log("premises/statements on the model: %d cases, %d failures" % (len(idx2), len(bad2)))
+    idx3 = [i for i in idx2 if not cases[i]["cfg"]["replace"] and attrs_simple(cases[i])]
+    bad3, log3 = [], ""
+    if pinfo.get("build_ok") and focus == "C10":
+        cname3 = "%sq%s%d" % (focus, run.tier[0], os.getpid())
+        try:
+            b3, log3 = lib.run_cases(cname3, PRE3, [coq_case(cases[i]) for i in idx3], chunk=max(40, len(idx3) // 40 + 1))
+        finally:
+            for f in os.listdir(lib.CASES):
+                if f.startswith(cname3 + "_") or f.startswith("." + cname3 + "_"):
+                    try:
+                        os.unlink(os.path.join(lib.CASES, f))
+                    except OSError:
+                        pass
+        bad3 = [idx3[i] for i in b3]
+    run.log("premises/statements on the model: %d cases, %d failures; attribute premise: %d cases, %d failures"
+            % (len(idx2), len(bad2), len(idx3) if focus == "C10" else 0, len(bad3)))
     run.log("correspondence: %d cases (%d inputs outside the model or without a script), %d disagreements; "
             "oracle %s: %d inputs judged, %d violations (%d under a recorded finding)"
             % (len(idx), len(cases) - len(idx), len(bad), focus, judged, len(viols), nknown))
@@ -819,6 +890,10 @@ def main(run, focus):
                      "(accept T ~ prepared right) / C10 (reject T ~r prepared left, attributes included) evaluated on the "
                      "model's output, configurations without text tags",
              "cases": len(idx2), "bad": bad2, "log": log2, "describe": lambda i: describe(cases[i])}]
+    if focus == "C10":
+        corr.append({"name": "TESTED premise run_ok_attr of C10_reject_attrs_partial (a name is touched by one attribute action per "
+                             "node, no overwriting insert/rename) on documents without namespaced attributes",
+                     "cases": len(idx3), "bad": bad3, "log": log3, "describe": lambda i: describe(cases[i])})
 
     def deeper():
         r2 = random.Random(run.seed + 7)
@@ -850,7 +925,7 @@ def main(run, focus):
                 "small documents whose text and tail run over critical strings (None, blanks, shared prefixes/suffixes) under all "
                 "normalize x use_replace settings; seeded document pairs (<= 8 nodes; attributes, texts, tails, comments with tails, "
                 "namespaces declared on the root) with random normalize/use_replace and random Differ options; documents that bind "
-                "the formatter's own prefix `diff` (and ns0) to their own namespaces; long multi-line texts and tails (> 100 "
+                "the formatter's own prefix `diff` to a namespace of their own; long multi-line texts and tails (> 100 "
                 "characters: diff_lineMode) with several groups of changed lines; seeded mixed-content "
                 "documents (tags %s) with random text_tags/formatting_tags subsets; the differ's scripts mutated (wrong paths, "
                 "positions, attribute names) for the error paths; a labelled stream of inputs under the recorded findings.  DMP clock: "
@@ -868,9 +943,22 @@ def main(run, focus):
         "namespaces are declared on the root element or bound by InsertNamespace, one URI per prefix (Clark names in the model; "
         "etree.cleanup_namespaces is invisible in that form)",
         "no comments / processing instructions outside the root element; no processing instructions at all",
+        "no document binds a prefix of the form ns<k> (lxml's own): such inputs are the open finding reserved-ns-prefix-on-root, "
+        "run as a labelled stream outside the model",
         "serialisation and re-parsing of the output are lxml's: well-formedness of the printed string is TESTED by re-parsing (oracle), not proved",
         "DMP wall clock and str.isalnum/isspace are oracles of the model; the harness scripts the clock and passes the actual character classes",
         "no Python recursion limit (undo_tree runs on explicit fuel in the model)",
+        "READING of 'the flattened content of every text tag' used by the accept/reject oracles (project/stream; Projections.v header): "
+        "an element that goes takes the text region after it along (its tail and the diff: wrappers up to the next element) iff its "
+        "parent is NOT a text tag on the side the element comes from -- accept drops an element marked deleted with its tail region iff "
+        "the parent's OLD tag (diff:rename, else its tag) is not a text tag; reject drops an element marked inserted with its tail region "
+        "iff the parent's NEW tag is not a text tag; inside a flattened text run an element is one character of the run.  "
+        "deleted-formatting (accept) / inserted-formatting (reject) elements are unwrapped; a text tag (new tag for accept, old tag for "
+        "reject) is compared by its flattened content (characters and non-formatting child elements as atoms, formatting boundaries "
+        "erased), everything else exactly.  Documented sample of the LITERAL rule failing: <p>a<img/>b</p> vs <q>ab</q>, text_tags=p "
+        "prints <q diff:rename=\"p\">a<img diff:delete=\"\"/>b</q>, whose literal acceptance is <q>a</q>",
+        "theorem premises that are TESTED, not proved: run_ok (each text/tail is updated at most once, a node renamed at most once, "
+        "plain action strings) is evaluated by run_okb on every generated script without text tags (second correspondence component)",
     ]
     lib.conclude(run, ok, pinfo, corr, firsts, deeper)
 
